@@ -168,7 +168,8 @@ def main():
         for c in cases:
             obs = run_impl(stream, c)
             obs_list.append(obs)
-            pairs.append((stream.gcase(c), common.gal(obs)))
+            if getattr(stream, "MODEL", True):
+                pairs.append((stream.gcase(c), common.gal(obs)))
             for msg in (stream.oracle(c, obs) if obs != "hang" else ["implementation did not return within the time limit"]):
                 if msg_filter is not None and not msg_filter.search(msg):
                     continue          # a clause of another property that shares this stream
@@ -187,8 +188,12 @@ def main():
         if cases:
             samples.append({"stream": sname, "case": common.canon(cases[min(len(cases) - 1, 7)]),
                             "impl_observation": common.canon(obs_list[min(len(cases) - 1, 7)])})
-        mism, details = common.run_cases(prop + "_" + sname, stream.IMPORTS, stream.RUN, stream.CASE_TYPE, pairs)
-        coverage["streams"][sname] = {"cases": len(cases), "model_impl_disagreements": len(mism)}
+        if getattr(stream, "MODEL", True):
+            mism, details = common.run_cases(prop + "_" + sname, stream.IMPORTS, stream.RUN, stream.CASE_TYPE, pairs)
+        else:
+            mism, details = [], {}      # a stream that only evaluates the property directly on the implementation
+        coverage["streams"][sname] = {"cases": len(cases), "model_impl_disagreements": len(mism),
+                                      "compared_with_model": bool(getattr(stream, "MODEL", True))}
         for i in mism[:5]:
             c = cases[i]
             msgs = stream.oracle(c, obs_list[i]) if obs_list[i] != "hang" else ["hang"]
